@@ -303,9 +303,13 @@ def judge(case, s, ctx, net, obs, msg, msg2, resp):
             bad.append(('get|request-count', dict(n=len(obs['get']))))
         if limit >= size:
             if c != ('ret', bytearray(resp[0])) and c != ('ret', resp[0]):
-                bad.append(('get|response|%s' % (
-                    'none' if c[1] is None else 'differs'),
-                    dict(client=(c[0], c[1] if c[1] is None else len(c[1])))))
+                what = 'none' if c[1] is None else (
+                    'differs' if c[0] == 'ret' else
+                    '%s:%s' % (c[0], hex(c[1]) if isinstance(c[1], int)
+                               else c[1]))
+                bad.append(('get|response|%s' % what, dict(
+                    client=(c[0], len(c[1]) if isinstance(
+                        c[1], (bytes, bytearray)) else c[1]))))
         else:
             outcome = (kind, 'refused', c[0])
             if c[0] == 'ret' and c[1] is not None:
@@ -445,6 +449,14 @@ def cases(tier):
                             out.append(dict(base, kind='get', size=sz,
                                             other_miu=om, order=order,
                                             agf=order == 'other-later'))
+            # acceptable length at its extremes: a Get client that accepts
+            # up to 2^31 / 2^32-1 octets, a server that accepts only the
+            # empty message
+            for lim in (0x7FFFFFFF, 0x80000000, 0xFFFFFFFF):
+                out.append(dict(base, kind='get', size=325, limit=lim,
+                                agf=True))
+            for sz in (3, 40):
+                out.append(dict(base, kind='put', size=sz, limit=0, agf=True))
             # acceptable length around the message size
             for kind in ('put', 'get'):
                 m = m_up if kind == 'put' else 128
